@@ -15,16 +15,18 @@ def tiers(ctx, q, t):
 
 def start(ctx, profiles=("release",)):
     pid = ctx.pid
-    ctx.build(["Arp.Props." + pid], profiles)
+    module = OBL.get(pid, {}).get("module", "Arp.Props." + pid)
+    ctx.module = module
+    ctx.build([module], profiles)
     if not any(b["what"].startswith("lake build") for b in ctx.broken):
-        ctx.audit("Arp.Props." + pid, "Arp." + pid, OBL.get(pid, {}).get("theorems", []))
+        ctx.audit(module, "Arp." + pid, OBL.get(pid, {}).get("theorems", []))
     if ctx.tier == "thorough":
         import subprocess
-        p = subprocess.run(["lake", "env", "leanchecker", "Arp.Props." + pid], cwd=run.LEAN, capture_output=True, text=True)
+        p = subprocess.run(["lake", "env", "leanchecker", module], cwd=run.LEAN, capture_output=True, text=True)
         if p.returncode != 0:
-            ctx.broken.append({"what": "leanchecker rejected Arp.Props." + pid, "log": (p.stdout + p.stderr)[-2000:]})
+            ctx.broken.append({"what": "leanchecker rejected " + module, "log": (p.stdout + p.stderr)[-2000:]})
         else:
-            ctx.notes.append("leanchecker Arp.Props.%s: accepted" % pid)
+            ctx.notes.append("leanchecker %s: accepted" % module)
     corpus(ctx)
 
 
